@@ -1707,7 +1707,7 @@ Proof.
       - intros c _. rewrite SO1. destruct (Nat.eq_dec oc c) as [->|N]; [now rewrite ch_setc_eq|now rewrite ch_setc_neq]. }
     rewrite E2, POc, SO1, ch_setc_eq. reflexivity. }
   rewrite CV.
-  set (h3 := set_flags h2 X false false).
+  set (h3 := set_flags h2 X false (n_failed (nd h2 X))).
   assert (CH3 : forall c, In c (n_chans (nd h X)) -> ch h3 c = ch h c).
   { intros c Ic. unfold h3, set_flags. rewrite ch_setn, SO1.
     assert (oc <> c) by (specialize (Fresh1 oc In1); specialize (LC c Ic); lia).
@@ -1731,7 +1731,7 @@ Lemma sets_frozen mode X : forall sets s, Forall is_set sets ->
   c_heap (fold_left (step mode X) sets s) = c_heap s /\ c_jobs (fold_left (step mode X) sets s) = c_jobs s.
 Proof.
   induction sets as [|o r IH]; intros s F R O; [split; reflexivity|].
-  inversion F as [|? ? Ho Fr]; subst. destruct o as [l v| | | |i0 l v]; try contradiction. cbn [fold_left].
+  inversion F as [|? ? Ho Fr]; subst. destruct o as [l v| | | |i0 l v| |]; try contradiction. cbn [fold_left].
   assert (E : c_heap (step mode X s (OSet l v)) = c_heap s /\ c_jobs (step mode X s (OSet l v)) = c_jobs s).
   { destruct (find_chan (c_heap s) X PIn l) as [c|] eqn:Fc.
     - rewrite (lock_refuses mode X s l v c Fc); [split; reflexivity|].
